@@ -46,6 +46,34 @@ def decide (m : Inlined) (target : Nat) : Decision :=
 def convertNodes {ν : Type} (dom : ν → String) (conv : ν → List ν) (nodes : List ν) : List ν :=
   nodes.flatMap fun n => if isDefault (dom n) then conv n else [n]
 
+/-! ## `_initializers_to_constants` — the step after `convert_version`
+
+The converter may turn former attributes (`pads` of Pad-10, `min`/`max` of Clip-6, …) into *graph
+initializers* of the converted model. `_Inline.to_onnx` refuses graphs with initializers, so
+`adapt_inline` first rewrites them: every initializer whose name is not also a graph input becomes a
+leading default-domain `Constant` node (in initializer order), the initializer list is emptied, the
+nodes follow unchanged. With no such initializer the graph is left as it is. -/
+
+/-- what the step reads of the converted graph: input names, initializer names, nodes -/
+structure ConvGraph (ν : Type) where
+  inputs : List String
+  initializers : List String
+  nodes : List ν
+
+def initializersToConstants {ν : Type} (mkConst : String → ν) (g : ConvGraph ν) : ConvGraph ν :=
+  match g.initializers.filter (fun n => !g.inputs.contains n) with
+  | [] => g
+  | cs => { inputs := g.inputs, initializers := [], nodes := cs.map mkConst ++ g.nodes }
+
+/-- `adapt_inline` after its decision: kept nodes, or converted → initializers to constants -/
+def adaptNodes {ν : Type} (dom : ν → String) (conv : ν → List ν) (mkConst : String → ν)
+    (d : Decision) (inputs convInitializers : List String) (nodes : List ν) : List ν :=
+  match d with
+  | .keep => nodes
+  | .convert _ _ =>
+    (initializersToConstants mkConst
+      { inputs := inputs, initializers := convInitializers, nodes := convertNodes dom conv nodes }).nodes
+
 /-! ## what of `_adapt.py` this model covers (compared with `Generated/AdaptAttrInventory.lean`, tie G) -/
 
 /-- The exits of `adapt_inline` — (kind, returned expression, guarding tests) — one per branch of
@@ -57,11 +85,18 @@ def coveredExits : List (String × String × List String) := [("return", "v1", [
 
 /-- Every function of `_adapt.py` with the (kind, guards) of each of its exits. `adapt_best_effort`
     dispatches `_Inline` nodes to `adapt_inline` first and leaves nodes of other domains alone
-    (`proto.domain not in ('', 'ai.onnx')` → `None`, i.e. emitted verbatim: C18's custom nodes). -/
+    (`proto.domain not in ('', 'ai.onnx')` → `None`, i.e. emitted verbatim: C18's custom nodes);
+    `_initializers_to_constants` = `initializersToConstants` (early return when nothing is to be rewritten). -/
 def coveredFunctions : List (String × List (String × List String)) := [
   ("adapt_node", [("return", ["v2 == v3"]), ("return", ["<except ValueError>"]), ("return", [])]),
+  ("_initializers_to_constants", [("return", ["not v2"])]),
   ("adapt_inline", [("return", ["not v7 & {'', 'ai.onnx'}"]), ("return", ["v6 != v5"]), ("return", [])]),
   ("adapt_best_effort", [("return", ["isinstance(v0, _Inline)"]), ("return", ["isinstance(v0, _InternalNode) or len(v1) != 1"]), ("return", ["any((isinstance(v14, AttrGraph) for v14 in v0.attrs.get_fields().values()))"]), ("return", ["not v10"]), ("return", ["v5.domain not in ('', 'ai.onnx')"]), ("return", [])])
 ]
+
+/-- the names `adapt_inline` calls: the converter, the new initializer step, re-emission under the same scope -/
+def coveredInlineCalls : List String :=
+  ["Scope.of", "_initializers_to_constants", "max", "node.to_onnx", "onnx.version_converter.convert_version",
+   "var_names.items"]
 
 end CustomInline
